@@ -28,6 +28,7 @@ type Engine struct {
 	assigned map[*types.Var]bool
 	repo     string
 	pureMemo map[string]bool
+	constInit map[*types.Var]types.TypeAndValue // package-level vars with a constant initialiser
 	nonNilG  map[*types.Var]bool // package-level vars initialised with &T{...} or a call of errors.New-like constructors
 }
 
@@ -225,6 +226,14 @@ func load(repo string, patterns []string) (*Engine, error) {
 					for i, n := range vs.Names {
 						if i >= len(vs.Values) {
 							continue
+						}
+						if tv, ok := p.TypesInfo.Types[vs.Values[i]]; ok && tv.Value != nil {
+							if vr, ok := p.TypesInfo.Defs[n].(*types.Var); ok {
+								if e.constInit == nil {
+									e.constInit = map[*types.Var]types.TypeAndValue{}
+								}
+								e.constInit[vr] = tv
+							}
 						}
 						if u, ok := vs.Values[i].(*ast.UnaryExpr); ok && u.Op == token.AND {
 							if _, ok := u.X.(*ast.CompositeLit); ok {
